@@ -175,7 +175,7 @@ fn build(scn: &Scn) -> Built {
             }
             events.push(Event {
                 id,
-                mask: 0,
+                mask: [0u16, 0, 1, 4, 0xFFFF, 0x8000][(e.seed >> 33) as usize % 6],
                 serial: e.serial,
                 timestamp: base + k as u32,
                 width: widths[f.width as usize % 3],
@@ -540,6 +540,22 @@ impl Check for C19Check {
                 stats.probe("lz4_file");
             }
         }
+        // operator-level variation of how the same files are NAMED on the command line (decided by
+        // the configuration's argv seed): absolute, relative to the working directory, "./name",
+        // through a dotted sub-directory and "..", through a symbolic link
+        let _ = std::fs::create_dir_all(scratch.dir.join("sub.dir.mid"));
+        for n in &names {
+            let _ = std::os::unix::fs::symlink(scratch.dir.join(n), scratch.dir.join(format!("ln_{n}")));
+        }
+        let path_form = |argv_seed: u64, k: usize| -> std::path::PathBuf {
+            match (argv_seed >> 7) % 6 {
+                0 | 1 => paths[k].clone(),
+                2 => std::path::PathBuf::from(&names[k]),
+                3 => std::path::PathBuf::from(format!("./{}", names[k])),
+                4 => std::path::PathBuf::from(format!("sub.dir.mid/../{}", names[k])),
+                _ => std::path::PathBuf::from(format!("ln_{}", names[k])),
+            }
+        };
         let mk_narrow = |cfgs: Vec<RunCfg>| {
             let mut s = scn.clone();
             s.cfgs = cfgs;
@@ -557,7 +573,8 @@ impl Check for C19Check {
         // scheduler decision strings of the runs (the replayable schedule trace)
         let mut decisions: Vec<Option<String>> = vec![None; scn.cfgs.len()];
         for (ci, cfg) in scn.cfgs.iter().enumerate() {
-            let argv: Vec<_> = Rng::new(cfg.argv_seed).perm(paths.len()).into_iter().map(|k| paths[k].clone()).collect();
+            let argv: Vec<_> = Rng::new(cfg.argv_seed).perm(paths.len()).into_iter().map(|k| path_form(cfg.argv_seed, k)).collect();
+            stats.probe(["argv_paths_absolute", "argv_paths_absolute", "argv_paths_relative", "argv_paths_dot_slash", "argv_paths_through_dotted_dir_and_dotdot", "argv_paths_symlink"][((cfg.argv_seed >> 7) % 6) as usize]);
             let slog = scratch.dir.join(format!("sched{ci}.log"));
             let sreplay = cfg.sched_replay.as_ref().map(|d| {
                 let p = scratch.dir.join(format!("sched{ci}.replay"));
@@ -678,7 +695,7 @@ impl Check for C19Check {
         // ---- alpha-g-trg-scalers under two argv orders
         let mut stails: Vec<Vec<u8>> = Vec::new();
         for (ci, cfg) in scn.cfgs.iter().take(2).enumerate() {
-            let argv: Vec<_> = Rng::new(cfg.argv_seed ^ 0x55).perm(paths.len()).into_iter().map(|k| paths[k].clone()).collect();
+            let argv: Vec<_> = Rng::new(cfg.argv_seed ^ 0x55).perm(paths.len()).into_iter().map(|k| path_form(cfg.argv_seed ^ 0x5500, k)).collect();
             let env = RunEnv { hash_seed: Some(cfg.hash_seed), real_rayon: true, io_seed: cfg.io_seed, io_hard: io_hard_of(cfg, &paths), ..Default::default() };
             let extra: Vec<&str> = if cfg.verbose { vec!["--verbose"] } else { vec![] };
             stats.executions += 1;
